@@ -153,6 +153,14 @@ Theorem C10_psf_pos : forall (erf : R -> R) (s r : R),
 Proof. exact psf_nonneg. Qed.
 Print Assumptions C10_psf_pos.
 
+(* Rayleigh PSF over a spherical cap (solid angle 2 pi sin(psi) dpsi) *)
+Theorem C10_psf_rayleigh_cap : forall (erf : R -> R) (s Psi : R),
+  s <> 0%R -> (0 <= Psi <= PI)%R ->
+  is_RInt (fun r => (2 * PI * sin r * psf_rayleigh (RNum erf) (s * s) r)%R) 0 Psi
+          (1 - exp (- (Psi * Psi) / (2 * (s * s))))%R.
+Proof. exact psf_rayleigh_cap. Qed.
+Print Assumptions C10_psf_rayleigh_cap.
+
 (* ------------------------------------------------------------------ accepted data can be evaluated *)
 
 (* a value accepted by BinningDefinition.any_data_out_of_range gets the index
